@@ -6,7 +6,7 @@ ROOT = os.path.dirname(os.path.dirname(os.path.abspath(__file__)))
 
 T = {
  "C01": ("exploration", "self-consistency + near-miss equivalence oracle + independent reference per format",
-         "runtime monitoring: API-boundary recorder over generated (hasher, password, settings, context) cases; oracle = documented-equivalence model per format and independent reference implementations",
+         "runtime monitoring: API-boundary recorder over generated (hasher, password, settings, context) cases; oracle = documented-equivalence model per format and independent reference implementations; thorough tier adds online monitors hooked into the hashers while the repository's own test-suite runs",
          "3 C01"),
  "C02": ("exploration", "differential monitor against independent reference implementations, both directions, default and pure-python backends",
          "runtime differential monitoring against independent spec implementations (hashlib spec loops, textbook DES/MD4, bcrypt wheel, OS crypt, Django)",
@@ -15,7 +15,7 @@ T = {
          "runtime monitoring of backend selection in fresh processes: cross-backend digest equality, host-capability oracle outside passlib, ledger invariant over set_backend sequences",
          "3 C03"),
  "C04": ("exploration", "executable policy model of CryptContext compared with the real context over generated configurations and hash corpora; verify_and_update fixed-point histories",
-         "runtime monitoring against an executable reference model of the context policy (model-based oracle over generated configurations and histories)",
+         "runtime monitoring against an executable reference model of the context policy (model-based oracle over generated configurations, category-visit histories and verify_and_update histories); thorough tier adds online monitors on CryptContext.hash / verify_and_update while the repository's own test-suite runs",
          "3 C04"),
  "C05": ("exploration", "byte-level truncation model: extension / alteration probes against produced hashes, exception-class oracle at the size boundaries",
          "runtime monitoring with a byte-level truncation model and exception-class oracle over boundary-length inputs",
@@ -24,7 +24,7 @@ T = {
          "runtime monitoring with a controlled random source: exhaustive source enumeration (bijection check) and chi-square / bit-correlation monitors on generated values",
          "3 C06"),
  "C07": ("exploration", "round-trip monitor: from_string/to_string/parsehash vs settings known to the generator and an independent field splitter; reference-grammar strings",
-         "runtime round-trip monitoring of parse/render against generator-known settings",
+         "runtime round-trip monitoring of parse/render against generator-known settings and reference-made strings; thorough tier adds a re-render monitor on every hash the repository's own test-suite makes",
          "3 C07"),
  "C08": ("exploration", "complete single-edit neighbourhoods of seed hashes: exception-class oracle and acceptance oracle with documented-equivalence classifier",
          "runtime monitoring over exhaustive one-edit mutation neighbourhoods with exception-class and acceptance oracles",
@@ -33,7 +33,7 @@ T = {
          "runtime monitoring of using() chains: executable window model + isolation invariant (fingerprint at every step)",
          "3 C09"),
  "C10": ("fault_enumeration", "fault injected at every statement of the build phase of load()/update() (sys.monitoring failpoints) and every invalid-change kind x position; fingerprint before == after",
-         "runtime fault injection (source-free sys.monitoring failpoints, raising hashers, invalid changes) with before/after fingerprint oracle; export/import round-trip monitor",
+         "runtime fault injection (source-free sys.monitoring failpoints, raising hashers, invalid changes) with before/after fingerprint oracle; export/import round-trip monitor; load/update histories on one object compared with a context built afresh from its export",
          "3 C10"),
  "C11": ("exploration", "differential monitor of the pure-python primitives against textbook/standard-library references, exhaustive where small",
          "runtime differential monitoring of DES/Blowfish/MD4/scrypt/HMAC/PBKDF/SASLprep against independent references",
@@ -54,7 +54,7 @@ T = {
          "runtime monitoring of operation histories against an executable file model, invariant checked after every operation by an independent reader",
          "3 C16"),
  "C17": ("exploration", "every shipped context x every scheme x generated hashes: attribution and verification through the context",
-         "runtime monitoring over all exported contexts x schemes (exhaustive over the finite product) with generated hashes",
+         "runtime monitoring over all exported contexts x schemes x categories (exhaustive over the finite product) with generated hashes; import-order monitor over fresh interpreters",
          "3 C17"),
  "C18": ("exploration", "disable/enable histories against a small model; dummy-verify observed by a call probe",
          "runtime monitoring of disable/enable histories against an executable model with call probes",
